@@ -46,6 +46,11 @@ _WRAPPERS = {"new", "from", "into", "try_from", "try_into", "ok_or", "ok_or_else
              "unwrap", "from_utf8_unchecked", "clone", "to_owned", "to_string", "into_boxed_slice", "freeze"}
 
 
+_MUTATORS = {"dedup", "dedup_by", "dedup_by_key", "sort", "sort_unstable", "sort_by", "sort_by_key", "sort_unstable_by", "sort_unstable_by_key",
+             "sort_by_cached_key", "retain", "retain_mut", "truncate", "reverse", "clear", "pop", "remove", "swap_remove", "drain", "insert",
+             "swap", "rotate_left", "rotate_right", "split_off", "fill", "make_ascii_lowercase", "make_ascii_uppercase"}
+
+
 class ReadInterp(Interp):
     def __init__(self, F, summarise_props=True):
         super().__init__(F, "read")
@@ -202,6 +207,30 @@ class ReadInterp(Interp):
         for f in e["fields"]:
             vals[f["name"]] = self.eval_quiet(fr, f["e"])
         return ("struct", adt, e["variant"], vals)
+
+    def opt_cases(self, v):
+        """On the read side `Some(x)` is represented by x itself: a computed Option is a case split whose alternatives are
+        ("none",) or a payload."""
+        def rec(x):
+            if isinstance(x, tuple) and x and x[0] in ("none", "some"):
+                return [(Poly.const(1), x)]
+            if isinstance(x, Cases):
+                out = []
+                for i, y in x.pairs:
+                    sub = rec(y)
+                    if sub is None:
+                        return None
+                    out += [(i * j, z) for j, z in sub]
+                return out
+            if isinstance(x, (PathVal, Opaque)) or x is None:
+                return None
+            return [(Poly.const(1), ("some", x))]
+        if isinstance(v, tuple) and v and v[0] in ("none", "some"):
+            return [(Poly.const(1), v)]
+        if isinstance(v, Cases):
+            out = rec(v)
+            return out if out is not None and any(y == ("none",) for _j, y in out) else None
+        return None
 
     def fork(self, fr, ind, then_fn, else_fn):
         base_env = dict(fr.env)
@@ -370,6 +399,8 @@ class ReadInterp(Interp):
         if p.get("k") == "Binding" and p.get("sub"):
             ind, binder = self.match_ind(fr, scrut, p["sub"])
             return ind, (lambda: (binder(), fr.env.__setitem__(p["var"]["id"], scrut)))
+        if p.get("k") == "Variant" and p.get("adt") == "core::option::Option" and not isinstance(scrut, PathVal) and self.opt_cases(scrut) is not None:
+            return super().match_ind(fr, scrut, pat)        # a computed Option (a constructor / helper picked by an earlier match)
         if p.get("k") == "Const" or not isinstance(scrut, PathVal) and p.get("k") == "Variant":
             self.ncond += 1
             return Poly.atom(("cond", ("$c%d" % self.ncond,))), (lambda: None)
@@ -823,6 +854,13 @@ class ReadInterp(Interp):
         res = fn.get("res") or d
         name = fn.get("name")
         args = e["args"]
+        if not d and e.get("fun") is not None:
+            return self.call_value(fr, e)
+        if name in _MUTATORS and (d.startswith("alloc::vec") or d.startswith("core::slice") or d.startswith("alloc::string") or
+                                  d.startswith("core::str") or d.startswith("alloc::str") or d.startswith("alloc::slice")):
+            # decoded data (a list of entries, a string, a payload) rearranged or cut after it was read: what the packet then
+            # carries is not what the bytes said
+            raise Unsupported("decoded data is modified in place by `%s` at %s" % (name, loc(e)))
         if d == "tokio::io::util::async_read_ext::AsyncReadExt::read_exact":
             n = self.buf_len(fr, args[1])
             self.consumed = self.consumed + n
@@ -944,9 +982,20 @@ class ReadInterp(Interp):
             del self.reads[r0:]
             self.reads.append(("call", res, sub, _symname(v)))
             return v
-        if local and not callee.get("is_async") and callee.get("thir") and name not in _WRAPPERS and \
+        out_adt = self.F.adts.get((fn.get("sig_out") or "").strip())
+        builds_struct = out_adt is not None and out_adt["kind"] == "struct" and name in ("new", "new_normal", "new_success", "default") \
+            and (fn.get("sig_out") or "").split("::")[0] in ("v3", "v5") and not (fn.get("sig_out") or "").endswith("Properties")
+        if local and not callee.get("is_async") and callee.get("thir") and (name not in _WRAPPERS or builds_struct) and \
                 name not in ("from_u8", "is_invalid", "value", "new_with") and self.depth < 10:
             vals = [self.eval_quiet(fr, a) for a in args]
+            if builds_struct:
+                # a body type's own constructor (`Self::new(reason_code)`): the struct it builds, fields and all
+                try:
+                    r_ = self._call_local(fr, res, args, vals)
+                    if isinstance(r_, tuple) and r_ and r_[0] == "struct":
+                        return r_
+                except Unsupported:
+                    pass
             if any((isinstance(v, Poly) and not v.is_const()) or (isinstance(v, tuple) and v and v[0] == "struct") for v in vals):
                 try:
                     return self._call_local(fr, res, args, vals)
